@@ -47,11 +47,31 @@ class SimFS:
         self.files = {}
         self.listener = None
         self.glob_order = None  # callable(list)->list, owned by the scheduler
+        self.aliases = []  # (link spelling, real spelling) of a directory: two names for the same files
 
     def reset(self):
         self.files = {}
         self.listener = None
         self.glob_order = None
+        self.aliases = []
+
+    # -- a symlinked directory: files are stored under the link spelling (the one the worlds use); the "real"
+    # spelling reaches the same files, and os.path.realpath() turns the link spelling into the real one
+    def canon(self, path):
+        if path is None:
+            return None
+        p = self.norm(path)
+        for link, real in self.aliases:
+            if p == real or p.startswith(real + "/"):
+                return link + p[len(real):]
+        return p
+
+    def realpath(self, path):
+        p = self.norm(path)
+        for link, real in self.aliases:
+            if p == link or p.startswith(link + "/"):
+                return real + p[len(link):]
+        return p
 
     # -- helpers
     @staticmethod
@@ -73,7 +93,7 @@ class SimFS:
 
     # -- API used by shims
     def open(self, path, mode="r", *args, **kwargs):
-        p = self.norm(path)
+        p = self.canon(path)
         if "w" in mode or "a" in mode or "+" in mode or "x" in mode:
             raise OSError(errno.EROFS, "SimFS is read-only for the system under test", p)
         self._note("open", p)
@@ -91,22 +111,26 @@ class SimFS:
         return f
 
     def exists(self, path):
-        p = self.norm(path)
+        p = self.canon(path)
         r = p in self.files or p in self.dirs()
         self._note("exists", p, r)
         return r
 
     def isfile(self, path):
-        p = self.norm(path)
+        p = self.canon(path)
         return p in self.files
 
     def isdir(self, path):
-        p = self.norm(path)
+        p = self.canon(path)
         return p in self.dirs()
 
     def glob(self, pattern, recursive=False, **kw):
         pat = os.fspath(pattern)
-        res = self._glob(pat, recursive)
+        cpat = self.canon(pat)
+        res = self._glob(cpat, recursive)
+        if cpat != self.norm(pat):
+            # asked through the real spelling: answer in the real spelling
+            res = {self.realpath(r) for r in res}
         res = sorted(res)
         if self.glob_order is not None and len(res) > 1:
             res = self.glob_order(res)
@@ -189,6 +213,12 @@ def _shim_isdir(path):
     return _real["isdir"](path)
 
 
+def _shim_realpath(path, *args, **kwargs):
+    if _is_virtual(path):
+        return SIMFS.realpath(path)
+    return _real["realpath"](path, *args, **kwargs)
+
+
 def _shim_glob(pathname, *args, **kwargs):
     if _is_virtual(pathname):
         kwargs.pop("root_dir", None)
@@ -219,6 +249,7 @@ def install_shims():
     _real["exists"] = os.path.exists
     _real["isfile"] = os.path.isfile
     _real["isdir"] = os.path.isdir
+    _real["realpath"] = os.path.realpath
     _real["glob"] = _glob_mod.glob
     _real["iglob"] = _glob_mod.iglob
     builtins.open = _shim_open
@@ -226,9 +257,10 @@ def install_shims():
     os.path.exists = _shim_exists
     os.path.isfile = _shim_isfile
     os.path.isdir = _shim_isdir
+    os.path.realpath = _shim_realpath
     _glob_mod.glob = _shim_glob
     _glob_mod.iglob = _shim_iglob
-    for f in (_shim_open, _shim_exists, _shim_isfile, _shim_isdir, _shim_glob, _shim_iglob):
+    for f in (_shim_open, _shim_exists, _shim_isfile, _shim_isdir, _shim_glob, _shim_iglob, _shim_realpath):
         _SHIMS[id(f)] = f
 
 
@@ -288,7 +320,8 @@ def check_seams():
             if callable(gval) and id(gval) in real_funcs:
                 bad.append(f"{name}.{gname} is the real {real_funcs[id(gval)]}")
             # other os-level primitives that would read the disk behind our back
-            if gname in ("listdir", "scandir", "walk", "lstat", "stat", "access") and callable(gval):
+            if gname in ("listdir", "scandir", "walk", "lstat", "stat", "access", "samefile", "islink", "readlink") \
+                    and callable(gval):
                 bad.append(f"{name}.{gname} bound by name")
     if bad:
         raise SeamBypassed("; ".join(bad))
